@@ -41,3 +41,47 @@ def World.run (mk : Nat → Graph → σ) (act : σ → α → σ) (w : World σ
   ops.foldl (World.step mk act) w
 
 end Vrp
+
+namespace Vrp
+
+variable {σ α : Type}
+
+/-- getters that may RAISE while they configure the new object (`mk? k src = none` stands for the exception:
+    no travel arc for the sequence length, a heuristic that fails, …).  Repaired getters (fix ff3f4a7) keep the
+    object only once it is completely built: a raising request leaves the world unchanged.  The boolean is
+    "the call raised". -/
+def World.stepP (mk? : Nat → Graph → Option σ) (act : σ → α → σ) (w : World σ) (op : WOp α) : World σ × Bool :=
+  match op with
+  | .get k =>
+    match w.slot k with
+    | some _ => (w, false)
+    | none =>
+      match mk? k w.source with
+      | some s => ({ w with slot := fun j => if j = k then some s else w.slot j }, false)
+      | none => (w, true)
+  | .act k a =>
+    match w.slot k with
+    | none => (w, false)
+    | some s => ({ w with slot := fun j => if j = k then some (act s a) else w.slot j }, false)
+
+def World.runP (mk? : Nat → Graph → Option σ) (act : σ → α → σ) (w : World σ) (ops : List (WOp α)) : World σ :=
+  ops.foldl (fun w op => (World.stepP mk? act w op).1) w
+
+/-- the pinned getters: the object is stored BEFORE it is configured (`half k src` = what the constructor alone
+    gives), so a raising request leaves it behind -/
+def World.stepPinned (mk? : Nat → Graph → Option σ) (half : Nat → Graph → σ) (act : σ → α → σ)
+    (w : World σ) (op : WOp α) : World σ × Bool :=
+  match op with
+  | .get k =>
+    match w.slot k with
+    | some _ => (w, false)
+    | none =>
+      match mk? k w.source with
+      | some s => ({ w with slot := fun j => if j = k then some s else w.slot j }, false)
+      | none => ({ w with slot := fun j => if j = k then some (half k w.source) else w.slot j }, true)
+  | .act k a =>
+    match w.slot k with
+    | none => (w, false)
+    | some s => ({ w with slot := fun j => if j = k then some (act s a) else w.slot j }, false)
+
+end Vrp
